@@ -2281,6 +2281,7 @@ rfbProcessClientNormalMessage(rfbClientPtr cl)
     int i;
     uint32_t enc=0;
     uint32_t lastPreferredEncoding = -1;
+    rfbBool hadCursorShapeUpdates = FALSE;
     char encBuf[64];
     char encBuf2[64];
     rfbExtDesktopScreen *extDesktopScreens;
@@ -2375,6 +2376,7 @@ rfbProcessClientNormalMessage(rfbClientPtr cl)
         if (cl->preferredEncoding!=-1)
             lastPreferredEncoding = cl->preferredEncoding;
 
+        hadCursorShapeUpdates = cl->enableCursorShapeUpdates;
         /* Reset all flags to defaults (allows us to switch between PointerPos and Server Drawn Cursors) */
         cl->preferredEncoding=-1;
         cl->useCopyRect              = FALSE;
@@ -2651,6 +2653,10 @@ rfbProcessClientNormalMessage(rfbClientPtr cl)
 		 cl->host);
 	  cl->enableCursorPosUpdates = FALSE;
 	}
+
+	/* a client that no longer draws the cursor itself has to get the server-drawn one */
+	if (hadCursorShapeUpdates && !cl->enableCursorShapeUpdates)
+	  rfbRedrawAfterHideCursor(cl,NULL);
 
 	if (!cl->useCopyRect) {
 	  /* the client no longer accepts CopyRect: what is still scheduled as a
